@@ -371,6 +371,33 @@ def merge_after_macro(repo, name, call_pattern=MACRO_CALL):
                                   "the call)" % src(mt["_S"])
             out["filter_ok"] = ok
             out["detail"] = detail
+    # every emitted call of the macro is followed by the merge: a second
+    # way out of the emitter (a "nothing to merge" fast path) that emits
+    # the call alone loses the callee's global definitions
+    def ctrl(path):
+        return [(id(n), fld) for n, fld in path
+                if isinstance(n, A.Py) and n.kind in (
+                    "If", "While", "Try", "ExceptHandler")]
+    calls, upds = [], []
+    for i, (it, conds, path) in enumerate(ln.rows):
+        if not isinstance(it, A.Frag):
+            continue
+        if L.frag_find(it, call_pattern, "expr"):
+            calls.append(i)
+        if any("rcontext" in src(b["_A"]) for _, b in L.frag_find(
+                it, "econtext.update(_A)", "expr")):
+            upds.append(i)
+    alone = []
+    for i in calls:
+        ci, pi = tuple(ln.rows[i][1]), ctrl(ln.rows[i][2])
+        if not any(j >= i and tuple(ln.rows[j][1]) == ci[:len(ln.rows[j][1])]
+                   and ctrl(ln.rows[j][2]) == pi[:len(ctrl(ln.rows[j][2]))]
+                   for j in upds):
+            alone.append(i)
+    if alone:
+        out["top"] = False
+        out["detail"] = "the call is also emitted without the merge, " \
+            "under %s" % (list(ln.rows[alone[0]][1]) or "no condition")
     return out
 
 
